@@ -74,6 +74,7 @@ def run(tier):
         misc.relax_width_rule(chk, 'C19.histo', prog, cfgname)
         if r4_path.run(chk, 'R4.path', prog, cfgname) < 40:
             raise AnalysisBroken('C19: fewer than 40 releases through an access path found')
+        r4_path.field_held_rule(chk, 'R4.parked', prog, cfgname)
         r11_kinds.run(chk, 'C19.kinds', prog, cfgname, floor=1900)
         if cfgname == 'tested':
             r9_sibling.run(chk, prog, 'R9', None, cfgname)
